@@ -1507,6 +1507,21 @@ impl Engine<'_> {
                             if let Some(end) = self.check_options(&m, opts, &dec, &st, step, desc) {
                                 return Some(end);
                             }
+                            // searches on any non-empty index return results
+                            if !m.items.is_empty() {
+                                let q = m.items.values().next().unwrap().clone();
+                                let r = with_metric!(metric, D, guarded(|| {
+                                    let reader = Reader::<D>::open(wtxn, index, adb::<D>(db))?;
+                                    let n_trees = reader.n_trees();
+                                    reader.nns(1).by_vector(wtxn, &q).map(|r| (r.len(), n_trees))
+                                }));
+                                match r {
+                                    Ok(Ok((1, _))) => self.c.inc("opt_search_returns_a_result"),
+                                    other => {
+                                        return Some(vio(step, "options", format!("after {desc}: nns(1) on a non-empty index ({} items) -> {other:?}, expected exactly one result", m.items.len())));
+                                    }
+                                }
+                            }
                         }
                     }
                     Err(e) => {
